@@ -6,7 +6,7 @@
    oracle bit). `reach h` is the store after h from the empty store. The checker modelled is the repaired
    one (/repo branch fix-S9); the loop as written at 9309c15 is kept as `check_peers_as_written` and
    refuted below. *)
-From V Require Import Base.Common Model.C09_Metrics Proofs.C09_Metrics.
+From V Require Import Base.Common Model.C09_Metrics Model.C09_Check Proofs.C09_Metrics Proofs.C09_Monitor.
 From Coq Require Import Sorting.Sorted.
 Open Scope Z_scope.
 
@@ -111,3 +111,81 @@ Example c09_example :
   snd (run (h ++ [ECheck 6 [((0, 2)%N, false); ((0, 1)%N, false)]; ECheck 7 [((0, 2)%N, false)]]) (empty_store, []))
     = [((0, 2)%N, Some 1%N)].
 Proof. vm_compute. split; reflexivity. Qed.
+
+(* ---- the run-time monitors of Model/C09_Check.v (spec_walk: codes 2, 10, 11, 13) and the theorems above ----
+   A harness case is a history `ops` of operations carrying what the implementation answered (OLatest: the ids returned;
+   OCheckPeers / OCheckAll: the alerts drained). `spec_walk ops [] 0 PNone []` lists the codes of the failed monitors;
+   the case passes when it is empty. `uniq_ids`: the harness numbers the metrics it adds 0, 1, 2, ... *)
+
+(* completeness: write the model's own answers into any history (annotate): no monitor fires, for every history *)
+Theorem hist_model_passes_monitor ops : uniq_ids ops -> spec_walk (annotate ops ms0) [] 0 PNone [] = [].
+Proof. exact (model_passes_monitor_l ops). Qed.
+Print Assumptions hist_model_passes_monitor.
+
+(* ... and that annotated history is one the model-vs-implementation comparison (code 1) accepts *)
+Theorem hist_annotate_agrees ops : mrun (annotate ops ms0) ms0 = true.
+Proof. exact (annotate_agrees_l ops ms0). Qed.
+Print Assumptions hist_annotate_agrees.
+
+(* the same from the comparison alone: whenever the implementation's answers agree with the model (code 1 not produced) no
+   other code is produced. The comparison canonicalises alerts through alert_code, which separates them only for peer
+   indices < 1000 and metric ids < 999 (small_history; see alert_code_collision_example) *)
+Theorem hist_agreeing_passes_monitor ops : uniq_ids ops -> small_history ops -> mrun ops ms0 = true ->
+  spec_walk ops [] 0 PNone [] = [].
+Proof. exact (agreeing_passes_monitor_l ops). Qed.
+Print Assumptions hist_agreeing_passes_monitor.
+
+(* soundness, code 2: every LatestMetrics answer of a history on which code 2 is not produced names metrics that are one per
+   peer, each the most recently added of its (name, peer), of the asked name, valid, unexpired at that instant, of a member *)
+Theorem latest_monitor_sound ops : uniq_ids ops -> ~ In 2%N (spec_walk ops [] 0 PNone []) ->
+  forall pre name obs post, ops = pre ++ OLatest name obs :: post ->
+  latest_spec (time_at pre) (peerset_at pre) (rev pre) name obs.
+Proof. exact (latest_monitor_sound_l ops). Qed.
+Print Assumptions latest_monitor_sound.
+
+(* code 10: every alert drained after a check is for a (name, peer) whose most recently added metric had expired *)
+Theorem alerts_fresh_monitor_sound ops : ~ In 10%N (spec_walk ops [] 0 PNone []) ->
+  forall pre o obs post, ops = pre ++ o :: post -> obs_of_check o = Some obs ->
+  forall a, In a obs -> exists m, most_recent_add (rev pre) m /\ mkey m = fst a /\ mexp m < time_at pre.
+Proof. exact (alerts_fresh_monitor_sound_l ops). Qed.
+Print Assumptions alerts_fresh_monitor_sound.
+
+(* code 11: over any stretch of the history without an add for (name, peer), the checks report at most one alert for it *)
+Theorem alerts_once_monitor_sound ops : ~ In 11%N (spec_walk ops [] 0 PNone []) ->
+  forall k pre seg post, ops = pre ++ seg ++ post -> forallb (fun o => negb (adds_to k o)) seg = true ->
+  (alerts_in k seg <= 1)%nat.
+Proof. exact (alerts_once_monitor_sound_l ops). Qed.
+Print Assumptions alerts_once_monitor_sound.
+
+(* code 13: a CheckPeers over a (name, peer) whose most recent metric is expired, not removed and not yet alerted for, reports it
+   (fewer than 6 samples ever, or a positive accrual verdict) *)
+Theorem reported_monitor_sound ops : ~ In 13%N (spec_walk ops [] 0 PNone []) ->
+  forall pre peers obs post, ops = pre ++ OCheckPeers peers obs :: post ->
+  forall n p m, In n (names_added (rev pre)) -> In p peers -> last_add (n, p) (rev pre) = Some m -> mexp m < time_at pre ->
+    removed_since_add (n, p) (rev pre) = false -> alerts_since_add (n, p) (rev pre) = 0%nat ->
+    ((count_adds (n, p) (rev pre) < 6)%nat \/ phi_of (phi_at pre) (n, p) = true) ->
+    (1 <= alerts_for (n, p) obs)%nat.
+Proof. exact (reported_monitor_sound_l ops). Qed.
+Print Assumptions reported_monitor_sound.
+
+(* non-vacuity: a history with renewals, expiry, a peerset, two checks and three reads meets every premise and passes;
+   the same history with a stale id reported, or a second alert, does not *)
+Example c09_monitor_example :
+  let h obs1 al2 := [OAdd (mk_m 0 0 1 true 5); OAdd (mk_m 1 0 2 true 5); OAdd (mk_m 2 0 1 true 9); OLatest 0 [2; 1];
+                OPeerset (PSome [1]); OTick 6; OLatest 0 obs1; OCheckPeers [1; 2] [((0, 2), Some 1)];
+                OCheckPeers [1; 2] al2; OLatest 0 [2]]%N in
+  uniq_ids (h [2%N] []) /\ small_history (h [2%N] []) /\ mrun (h [2%N] []) ms0 = true /\
+  spec_walk (h [2%N] []) [] 0 PNone [] = [] /\ annotate (h [] [((0, 0)%N, None)]) ms0 = h [2%N] [] /\
+  spec_walk (h [0%N] []) [] 0 PNone [] = [2%N] /\ spec_walk (h [2%N] [((0, 2)%N, None)]) [] 0 PNone [] = [11%N].
+Proof. cbv zeta. split; [|split; [|repeat split; vm_compute; reflexivity]].
+  - unfold uniq_ids. simpl. repeat constructor; simpl; intuition discriminate.
+  - split.
+    + simpl. intros m H. unfold small_metric. repeat (destruct H as [<-|H]; [simpl; lia|]). destruct H.
+    + intros o obs a Ho E Ha. simpl in Ho.
+      repeat (destruct Ho as [<-|Ho]; [try discriminate; simpl in E; injection E as <-; simpl in Ha;
+                                        repeat (destruct Ha as [<-|Ha]; [unfold small_alert; simpl; lia|]); destruct Ha|]).
+      destruct Ho. Qed.
+
+(* the limitation named in hist_agreeing_passes_monitor: two different alerts with one canonical code *)
+Example alert_code_collision_example : alerts_eqb [((0, 1)%N, None)] [((0, 0)%N, Some 999%N)] = true.
+Proof. exact alert_code_collision. Qed.
